@@ -65,12 +65,15 @@ Print Assumptions merge_copies.
    rewritten snapshot is the input with exactly the matched nodes (and everything below a matched
    directory) removed — `prune` — and nothing else changed: listed as (path, node without subtree)
    pairs, the result is the list of the input's pairs whose path has no matched prefix (`kept`), each
-   node passed through the modification. *)
+   node passed through the modification.  The root path [] (the only one the command uses) carries no
+   premise: the nameless root is not matched against the globs (fix "rewrite does not treat the nameless
+   snapshot root as excludable"); the input is well-formed (every level sorted), so the modifier's sort of a
+   changed tree is the identity here. *)
 Theorem rewrite_removes_exactly_excluded : forall excl modn,
   (forall n, n_name (fst (modn n)) = n_name n /\ n_kind (fst (modn n)) = n_kind n /\
              n_content (fst (modn n)) = n_content n /\ n_sub (fst (modn n)) = n_sub n) ->
   (forall n, snd (modn n) = false -> fst (modn n) = n) ->
-  forall path t, excl path true = false ->
+  forall path t, wf_tree t = true -> path = [] \/ excl path true = false ->
     let r := result_tree t (rewrite_tree excl modn path t) in
     r = prune excl modn path t /\
     map (fun pn => (fst pn, strip (snd pn))) (paths path r) =
@@ -134,3 +137,74 @@ Print Assumptions merge_loop_sorted.
 Theorem pq_spec_nonvacuous : pq_spec (fun h x => x :: h) pop_min.
 Proof. exact pq_spec_satisfiable. Qed.
 Print Assumptions pq_spec_nonvacuous.
+
+From Verif.C12 Require Import Proofs5.
+
+(* a tree written by repair is in name order (non-strictly: a marked name may coincide with a sibling) *)
+Theorem repair_result_sorted : forall has_data mark resize readable t st,
+  repair_tree has_data mark resize readable t = Changed st -> sorted_le st.
+Proof. exact repair_result_sorted_lemma. Qed.
+Print Assumptions repair_result_sorted.
+
+(* THE HEAP.  Model.heap_push / heap_pop transcribe std's BinaryHeap (Vec push + sift_up; pop last, swap with
+   the root, sift_down_to_bottom, sift_up).  With the heap order as representation invariant they meet the
+   priority-queue specification: push and pop preserve the invariant and the multiset, pop returns None only
+   on the empty vector and otherwise an element of least name. *)
+Theorem heap_meets_pq_spec : pq_spec_inv heap_ok heap_push heap_pop.
+Proof. exact heap_meets_pq_spec_lemma. Qed.
+Print Assumptions heap_meets_pq_spec.
+
+(* Hence the loop as written, over the heap as transcribed — the executable that reproduces the
+   implementation case by case, ties included — meets the path specification of merge_paths and yields
+   strictly sorted output, with no premise about the priority queue. *)
+Theorem merge_loop_paths_binary_heap : forall cmp, preorder cmp ->
+  forall ts, Forall (fun t => wf_tree t = true) ts ->
+  forall p, p <> [] -> spec_at cmp ts (merge_loop cmp ts) p.
+Proof. exact merge_loop_paths_binary_heap_lemma. Qed.
+Print Assumptions merge_loop_paths_binary_heap.
+
+Theorem merge_loop_sorted_binary_heap : forall cmp ts,
+  Forall (fun t => wf_tree t = true) ts -> sorted (merge_loop cmp ts).
+Proof. exact merge_loop_sorted_binary_heap_lemma. Qed.
+Print Assumptions merge_loop_sorted_binary_heap.
+
+From Verif.C12 Require Import Proofs6.
+
+(* COPY PRESERVES CONTENT.  Composition with C08: the repacker (BlobCopier::copy over coalesced reads, C08
+   `repack_preserves_blobs`) hands the target packer, for every entry, the decoded bytes of that entry's own
+   source location; the target packer (C08 `packer_pack_wellformed`) writes them - encoded by the
+   destination's Packer::add (`denc`: compress + encrypt under the destination key) - into packs whose index
+   entries have contiguous offsets.  For EVERY list of needed entries with distinct ids, every save pattern,
+   every source decoder and every destination encoder/decoder pair with `ddec (denc x) = Some x` (AEAD and zstd
+   round trip, as C08 states them; header encryption adds 32 bytes): each entry's blob is indexed in a
+   written destination pack at a location whose bytes decode to exactly the source blob's decoded bytes. *)
+Theorem copy_preserves_content : forall sstore sdecode denc dulen ddec enc,
+  (forall x, ddec (denc x) (dulen x) = Some x) ->
+  (forall x, length (enc x) = (length x + 32)%nat) ->
+  forall tpe es out saves packs,
+    NoDup (map Verif.C08.Repack.ce_id es) ->
+    Verif.C08.Repack.repack true sstore sdecode es = Verif.C08.Model.Ok out ->
+    Forall Verif.C08.Spec.wf_op (dest_ops denc dulen out saves) ->
+    Verif.C08.Model.packer_run enc tpe (dest_ops denc dulen out saves) = Verif.C08.Model.Ok packs ->
+    forall e, In e es ->
+      exists pd f bs b,
+        Verif.C08.Repack.expected_of sstore sdecode e
+          = Some (Verif.C08.Repack.ce_id e, pd, Verif.C08.Repack.l_ulen (Verif.C08.Repack.ce_loc e)) /\
+        In (f, bs) packs /\ In b bs /\ Verif.C08.Model.bid b = Verif.C08.Repack.ce_id e /\
+        Verif.C08.Model.btpe b = tpe /\
+        ddec (Verif.C08.Model.slice f (Verif.C08.Model.boff b) (Verif.C08.Model.blen b)) (Verif.C08.Model.bulen b) = Some pd.
+Proof. exact copy_preserves_content_lemma. Qed.
+Print Assumptions copy_preserves_content.
+
+(* ... hence, with content addressing for the blobs the destination already had, every reachable blob reads
+   the same bytes in the destination as in the source, and every file of every copied snapshot restores to
+   the same bytes (same chunk list, same plaintext per chunk). *)
+Theorem copy_restores_identically : forall tid src dst snaps (src_plain dst_plain : bt * N -> option (list N)),
+  (forall b, In b (flat_map (reach tid) snaps) -> has src b = true) ->
+  (forall b, In b (flat_map (reach tid) snaps) -> has dst b = true -> dst_plain b = src_plain b) ->
+  (forall b, In b (needed tid src dst snaps) -> dst_plain b = src_plain b) ->
+  (forall b, In b (flat_map (reach tid) snaps) -> dst_plain b = src_plain b) /\
+  forall t p n, In t snaps -> In (p, n) (paths [] t) -> n_kind n = KFile ->
+    map (fun i => dst_plain (Data, i)) (n_content n) = map (fun i => src_plain (Data, i)) (n_content n).
+Proof. exact copy_restores_identically_lemma. Qed.
+Print Assumptions copy_restores_identically.
